@@ -246,7 +246,7 @@ sm3_msg_sse:
 .tag_store_16_31:
         movdqu  [arg_tag + 0*16], xmm0
         lea     arg_tag, [arg_tag + 16]
-        movdqa  xmm1, xmm0
+        movdqa  xmm0, xmm1
         sub     arg_tag_length, 16
         ;; fall through to store remaining tag bytes
 
